@@ -259,6 +259,8 @@ class Check:
                 "known_finding_obligations": known_obl,
                 "vacuity_covers": {"checked": len(self.covers), "sat": sum(1 for c in self.covers if c[1] == "sat"),
                                    "undecided": [c[0] for c in self.covers if c[1] not in ("sat", "unsat")]},
+                "slowest": [dict(obligation=it["name"], time_s=it["time"], backend=it["backend"])
+                            for it in sorted(self.items, key=lambda i: -i["time"])[:5]],
                 "undecided": [dict(obligation=it["name"], status=it["status"]) for it in undecided] +
                              [dict(where=w, error=e) for w, e in self.errors],
                 "samples": smp,
